@@ -393,7 +393,9 @@ class ArgumentParser:
                 ):
                     default_value = kwargs.pop("default")
                     flag_name = option["flags"][0]
-                    namespace._passes[flag_name] = default_value
+                    # Copy the default: custom actions extend this list in
+                    # place, and the option table is shared by all commands.
+                    namespace._passes[flag_name] = list(default_value)
             parser.add_argument(*option["flags"], **kwargs)
 
         # Make a best-effort attempt to parse arguments.
